@@ -145,7 +145,7 @@ def parseable_url_without_redirection(data):
     from ural import infer_redirection, canonicalize_url
     cleaned = _CTRL.sub("", s).strip()
     try:
-        if infer_redirection(cleaned) != cleaned:
+        if infer_redirection(cleaned) != cleaned or infer_redirection(s) != s:
             return None
         for q in (False, True):
             c = canonicalize_url(s, quoted=q)
